@@ -307,7 +307,11 @@ def step (w : World) (line : String) : World × String :=
     | _ => (w, "badop")
   else if cmd == "registry" then
     let names := (FnId.all.map fun f => bytesToString f.name).toArray.qsort (· < ·) |>.toList
-    (w, "registry " ++ joinWith "," names)
+    -- `registry <shard> second`: the second container of a factory whose first container was modified by its holder is
+    -- again the whole registry, every name bound to the implementing type
+    match rest with
+    | [_, "second"] => (w, "registry " ++ joinWith "," names ++ " bound=" ++ toString FnId.all.length)
+    | _ => (w, "registry " ++ joinWith "," names)
   else if cmd == "fault" then
     match rest with
     | [k] => ({ w with failNext := some k.toNat! }, "fault ok")
